@@ -237,12 +237,17 @@ class Zoo:
         s2 = all_paths([0.5, 2.0], T, dtype=self.dtype)
         self.script2 = {"spot": s2[torch.arange(self.N) % s2.size(0)]}
         self.listed = I.EuropeanOption(self.p, strike=self.K * 0.9, maturity=(T - 1) * market.DT)
-        self.prims = [self.p, self.p2]
+        # a third stock declared in the OTHER dtype: a hedging instrument whose dtype differs from the underlier's
+        other = torch.float32 if self.dtype == torch.float64 else torch.float64
+        self.p3 = market.primary("brownian", dtype=other, cost=1 / 16, sigma=0.3)
+        self.script3 = {"spot": (self.script2["spot"] * 0.75 + 0.125).to(other)}
+        self.prims = [self.p, self.p2, self.p3]
         self.reset()
 
     def reset(self):
         market.set_buffers(self.p, **self.script)
         market.set_buffers(self.p2, **self.script2)
+        market.set_buffers(self.p3, **self.script3)
         self.d.delist()
         self.listed.delist()
 
@@ -708,14 +713,15 @@ def operations(variant, tier="thorough"):
     if tier == "quick":
         # deep copies of the hedger: in the quick tier for the Linear+prev_hedge hedger, in the thorough tier for all
         return [("hedge", 0), ("hedge", 2), ("pl", 0), ("pl", 1),
-                ("sim", 0, 2), ("sim", 0, 3), ("sim", 1, 3), ("sim", 2, 2), ("sim", 2, 3),
-                ("hto", "float64"), ("hto", "float32"),
+                ("sim", 0, 3), ("sim", 1, 3), ("sim", 2, 2), ("sim", 2, 3),
+                ("hto", "float64"),
                 ("dto", 0, "float64"), ("dto", 1, "float32"), ("dto", 2, "float64"),
-                ("loss", 0, 2), ("loss", 1, 3), ("loss", 2, 2), ("price", 0, 3),
+                ("loss", 0, 2), ("loss", 1, 3), ("price", 0, 3),
                 ("fit", 0, 2), ("fit", 1, 3),
                 ("input", 0, None), ("input", 2, 1), ("badprice", 0, 2),
                 # non-monotone get_input orders where bound features survive between calls (ModuleOutput binds in place)
-                ] + ([("input", 0, 2), ("input", 0, 1)] if variant == "modout" else []
+                ] + ([("fit", 2, 2)] if variant == "mlp" else []       # fit with an explicit hedge list [listed option]
+                     ) + ([("input", 0, 2), ("input", 0, 1)] if variant == "modout" else []
                      ) + ([("eval",), ("backward", 0, 2)] if variant == "prev" else []                  # gradient path through prev_hedge
                           ) + ([("copy",), ("chedge", 0)] if variant == "prev" else [])
     ops = []
